@@ -105,11 +105,27 @@ func isFreshBase(v ssa.Value) bool {
 	return freshBase(v, map[ssa.Value]bool{})
 }
 
+// freshScope restricts what counts as "allocated here": nil = anywhere in the function (the view of a caller, for whom
+// every object the function allocates is new); for the effect of a LOOP it is the set of blocks of the loop body, because
+// an object allocated before the loop exists when the loop is entered and a store to it inside the loop is a mutation of a
+// pre-existing object as far as the loop's frame is concerned.
+var freshScope map[*ssa.BasicBlock]bool
+var freshScopeFn *ssa.Function
+
+func inFreshScope(in ssa.Instruction) bool {
+	// allocations of other functions (callees analysed on the way) follow the ordinary rule
+	return freshScope == nil || in.Parent() != freshScopeFn || freshScope[in.Block()]
+}
+
 func freshBase(v ssa.Value, seen map[ssa.Value]bool) bool {
 	for {
 		switch x := v.(type) {
-		case *ssa.Alloc, *ssa.MakeSlice, *ssa.MakeMap:
-			return true
+		case *ssa.Alloc:
+			return inFreshScope(x)
+		case *ssa.MakeSlice:
+			return inFreshScope(x)
+		case *ssa.MakeMap:
+			return inFreshScope(x)
 		case *ssa.FieldAddr:
 			v = x.X
 		case *ssa.IndexAddr:
@@ -546,6 +562,8 @@ func (tr *Tr) loopMods(fr *Frame, li *loopInfo) map[string]modInfo {
 		}
 		return nil
 	}
+	freshScope, freshScopeFn = li.body, li.header.Parent()
+	defer func() { freshScope, freshScopeFn = nil, nil }()
 	for b := range li.body {
 		for _, in := range b.Instrs {
 			tr.g.instrMods(out, in, resolveLocal, closureOf)
